@@ -189,6 +189,9 @@ func loadKnown(path, prop string) {
 }
 
 func matchKnownFinding(f Failure) *knownFinding {
+	if f.Op == "net.with" && len(f.Args) >= 2 { // the same operation under another network is the same finding
+		f.Op, f.Args = f.Args[1], f.Args[2:]
+	}
 	for i := range knownFindings {
 		k := &knownFindings[i]
 		m := k.Match
